@@ -246,7 +246,10 @@ class Processor(ABC):
                 # the processed one, so it's used every time that the
                 # original relation tree is processed.
                 original.attach_payload(payload)
-                if marker is not original:
+                if marker is not original and isinstance(marker, Materialization):
+                    # If the processed materialization was simplified away
+                    # (e.g. to a doomed leaf of an engine that has no payload
+                    # for those), there is nothing else to attach it to.
                     marker.attach_payload(payload)
                 return result, True
             case MarkerRelation(target=target):
